@@ -1,9 +1,11 @@
 import ZarrsModel.Model.Meta
 import ZarrsModel.Model.Hier
 import ZarrsModel.Model.Float
+import ZarrsModel.Model.Consolidated
 import ZarrsModel.Driver.Proto
 import ZarrsModel.Driver.C13V2
 import ZarrsModel.Driver.C13Opts
+import ZarrsModel.Driver.C13Build
 /- driver handlers for C13 (unverified glue around `Zarrs.Meta`, `Zarrs.Hier`, `Zarrs.Json`) -/
 namespace Zarrs.DriverC13
 open Zarrs Zarrs.Json Zarrs.Meta Zarrs.Hier Zarrs.Proto
@@ -57,16 +59,54 @@ def insertS (x : String) : List String → List String
 def sortS (xs : List String) : List String := xs.foldr insertS []
 def showSet (xs : List String) : String := if xs.isEmpty then "~" else ",".intercalate (sortS xs)
 
+/-- the stored values the hierarchy operations write are kept as one-byte markers; this is the text each stands for
+    (`mkgroup`/`mkarray` of harness/src/c13.rs).  `mkdoc` and `cons` store real texts. -/
+def realize (v : Bytes) : Bytes :=
+  if v == [1] then ascii "{\"zarr_format\":3,\"node_type\":\"group\"}"
+  else if v == [2] then ascii "{\"zarr_format\":3,\"node_type\":\"array\",\"shape\":[2],\"data_type\":\"uint8\",\"chunk_grid\":{\"name\":\"regular\",\"configuration\":{\"chunk_shape\":[1]}},\"chunk_key_encoding\":{\"name\":\"default\",\"configuration\":{\"separator\":\"/\"}},\"fill_value\":0,\"codecs\":[{\"name\":\"bytes\"}]}"
+  else if v == [3] then ascii "{\"zarr_format\":2}"
+  else if v == [4] then ascii "{\"zarr_format\":2,\"shape\":[2],\"chunks\":[1],\"dtype\":\"|u1\",\"compressor\":null,\"fill_value\":0,\"order\":\"C\",\"filters\":null}"
+  else if v == [5] then ascii "{\"k\":1}"
+  else v
+
+def realizeKV (m : KV) : KV := m.map (fun kv => (kv.1, realize kv.2))
+
+/-- markers read as before; any other value is read as the document it is (`Cons.docReader`) -/
 def reader : Reader :=
-  ⟨fun v => if v == [1] then some true else if v == [2] then some false else none, fun _ => true, fun _ => true, fun _ => true⟩
+  ⟨fun v => if v == [1] then some true else if v == [2] then some false else Cons.docReader.cls v,
+   fun v => v == [4] || Cons.docReader.okA v, fun v => v == [3] || Cons.docReader.okG v,
+   fun v => v == [5] || Cons.docReader.okAttrs v⟩
 
 def prefixOfPath (p : String) : Key := if p == "/" then [] else (p.drop 1).toString.toList ++ ['/']
 
 /-- does `Group::open` succeed at the prefix -/
 def groupOpens (m : KV) (pre : Key) : Bool :=
   match m.get (pre ++ kZarrJson) with
-  | some v => v == [1]
-  | none => (m.get (pre ++ kZgroup)).isSome
+  | some v => v == [1] || (match Cons.GroupDocC.ofText v with | some g => Cons.groupOkC g | none => false)
+  | none =>
+    match m.get (pre ++ kZgroup) with
+    | some v =>
+      (Cons.zattrsAt (realizeKV m) pre).isSome &&
+      (v == [3] || (match MetaV2.GroupDocV2.ofText v with
+        | some d => d.extra.all (fun kv => !kv.2.mu)
+        | none => false))
+    | none => false
+
+/-- the harness prints stored texts through `serde_json::Value` (`compact`): a repeated key keeps its first position
+    and takes the last value, which is what `Json.parse` does -/
+def canon (t : List Nat) : List Nat := match parse t with | some j => print j | none => t
+
+mutual
+/-- documents inside the model: no object fill value anywhere (its key order is not modelled) -/
+def nodeInModel : Cons.NodeDoc → Bool
+  | .a3 d => fillOk d.fill
+  | .g3 _ none => true
+  | .g3 _ (some c) => membersInModel c
+  | _ => true
+def membersInModel : List (Str × Cons.NodeDoc) → Bool
+  | [] => true
+  | (_, d) :: rest => nodeInModel d && membersInModel rest
+end
 
 def handleDoc (l : Line) : Option (List String) := do
   let verb ← l.verbs[1]?
@@ -89,19 +129,12 @@ def handleDoc (l : Line) : Option (List String) := do
     | none => pure ["rej"]
   | "gdoc" =>
     if dup then pure ["rej"] else
-    match (parse text).bind (fun j => match j with
-        | .obj o => if (lookup o (ascii "consolidated_metadata")).isSome then none else some j
-        | _ => some j) with
-    | none =>
-      -- consolidated metadata is not modelled, but re-serialising what was parsed must still be a fixed point
-      let toks := outTokens l.outcome
-      match toks.find? (·.1 == "ser"), toks.find? (·.1 == "ser2") with
-      | some (_, a), some (_, b) => pure [if a == b then "any" else "ser=X ser2=X (re-serialising a parsed document must be a fixed point)"]
-      | _, _ => pure ["any"]
-    | some _ =>
-      match GroupDoc.ofText text with
-      | some d => pure [serLine d.toJ]
-      | none => pure ["rej"]
+    -- group documents with or without consolidated metadata: `Cons.GroupDocC` (Model/Consolidated.lean)
+    match Cons.GroupDocC.ofText text with
+    | none => pure ["rej"]
+    | some g =>
+      if !(nodeInModel (.g3 g.base g.cons)) then pure ["any"] else
+      pure [DriverC13V2.twice Cons.GroupDocC.ofText Cons.GroupDocC.toJ text]
   | "mut" => none   -- handled before the document is parsed (see `handleMut`)
   | "a2doc" | "g2doc" | "v2to3" =>
     -- V2 documents and the V2 -> V3 conversion: predicted by `Zarrs.MetaV2` (Driver/C13V2.lean)
@@ -142,16 +175,20 @@ def handleDoc (l : Line) : Option (List String) := do
         | _, _, _, _ => pure ["ok meta=.. stored=.. stored2=.. ops=ok"]
   | "gopen" =>
     if dup then pure ["rej-open"] else
-    match (parse text) with
+    match Cons.GroupDocC.ofText text with
     | none => pure ["rej-open"]
-    | some j =>
-      if (match j with | .obj o => (lookup o (ascii "consolidated_metadata")).isSome | _ => false) then pure ["any"] else
-      match GroupDoc.ofJ j with
-      | none => pure ["rej-open"]
-      | some d =>
-        if !(groupOk d) then pure ["rej-open"] else
-        let h := hexOf (print d.toJ)
-        pure [s!"ok meta={h} stored={h} stored2={h}"]
+    | some g =>
+      if !(nodeInModel (.g3 g.base g.cons)) then pure ["any"] else
+      if !(Cons.groupOkC g) then pure ["rej-open"] else
+      let t1 := print g.toJ
+      let h := hexOf t1
+      let hc := hexOf (canon t1)
+      -- stored, re-opened and stored again: the stored text must read back (a consolidated V2 array member whose
+      -- structured data type has a `null` shape does not: known defect of the V2 document reader)
+      let s2 := match Cons.GroupDocC.ofText t1 with
+        | some g2 => if Cons.groupOkC g2 then hexOf (canon (print g2.toJ)) else "rej-reopen"
+        | none => "rej-reopen"
+      pure [s!"ok meta={h} stored={hc} stored2={s2}"]
   | _ => none
 
 def handleOp (st : St) (l : Line) : Option (St × List String) := do
@@ -167,10 +204,29 @@ def handleOp (st : St) (l : Line) : Option (St × List String) := do
     if (← l.get "v") == "3" then pure ({ kv := (m.put (pre ++ kZarrJson) [2]).put (pre ++ "c/0".toList) [9] }, ["ok"])
     else pure ({ kv := (m.put (pre ++ kZarray) [4]).put (pre ++ "0".toList) [9] }, ["ok"])
   | "rmmeta" =>
+    -- through the API of the node kind found there: `Group::open`, else `Array::open`, must succeed
     let pre := prefixOfPath (← l.get "p")
-    if (m.get (pre ++ kZarrJson)).isSome then pure ({ kv := m.erase (pre ++ kZarrJson) }, ["ok"])
-    else if (m.get (pre ++ kZgroup)).isSome then pure ({ kv := (m.erase (pre ++ kZgroup)).erase (pre ++ kZattrs) }, ["ok"])
-    else if (m.get (pre ++ kZarray)).isSome then pure ({ kv := (m.erase (pre ++ kZarray)).erase (pre ++ kZattrs) }, ["ok"])
+    let rm := realizeKV m
+    let zattrsOk := (Cons.zattrsAt rm pre).isSome
+    let arrayOpens : Bool := match m.get (pre ++ kZarrJson) with
+      | some v => v == [2] || (match ArrayDoc.ofText v with
+          | some d => openOk d ((regularRank d.chunkGrid).getD d.shape.length)
+          | none => false)
+      | none => match m.get (pre ++ kZarray) with
+        | some v => v == [4] || (zattrsOk && !(DriverC13V2.mustRejectOpen v))
+        | none => false
+    if groupOpens m pre then
+      if (m.get (pre ++ kZarrJson)).isSome then pure ({ kv := m.erase (pre ++ kZarrJson) }, ["ok"])
+      else pure ({ kv := (m.erase (pre ++ kZgroup)).erase (pre ++ kZattrs) }, ["ok"])
+    else if arrayOpens then
+      -- whether the plugins accept a given (non-marker) array document is outside the model: the outcome is followed
+      let real := match m.get (pre ++ kZarrJson), m.get (pre ++ kZarray) with
+        | some v, _ => v != [2]
+        | none, some v => v != [4]
+        | none, none => false
+      if real && l.outcome == "none" then pure (st, ["none"]) else
+      if (m.get (pre ++ kZarrJson)).isSome then pure ({ kv := m.erase (pre ++ kZarrJson) }, ["ok"])
+      else pure ({ kv := (m.erase (pre ++ kZarray)).erase (pre ++ kZattrs) }, ["ok"])
     else pure (st, ["none"])
   | "setattrs" =>
     -- the node's attributes replaced by `n` entries and its metadata stored again: a V3 document keeps its key, a V2
@@ -190,6 +246,51 @@ def handleOp (st : St) (l : Line) : Option (St × List String) := do
     let pre := prefixOfPath (← l.get "p")
     pure ({ kv := (Spec.step m (.erasePrefix pre)).1 }, ["ok"])
   | "stray" => pure ({ kv := m.put (← l.get "k").toList [9] }, ["ok"])
+  | "mkdoc" =>
+    let pre := prefixOfPath (← l.get "p")
+    let text ← parseHex (← l.get "text")
+    let m1 := m.put (pre ++ (← l.get "key").toList) text
+    let m2 ← match l.get "zattrs" with
+      | some z => (parseHex z).map (fun zt => m1.put (pre ++ kZattrs) zt)
+      | none => some m1
+    pure ({ kv := m2 }, ["ok"])
+  | "cons" =>
+    -- `Node::open` + `consolidate_metadata`, set on the group, stored, re-opened (Model/Consolidated.lean)
+    let pre := prefixOfPath (← l.get "p")
+    if m.any (fun kv => kv.2 == [5]) then pure (st, ["any"]) else
+    let rm := realizeKV m
+    match Cons.consolidate rm pre with
+    | none => pure (st, ["err"])
+    | some none => pure (st, ["array"])
+    | some (some c) =>
+      if !(membersInModel c) then pure (st, ["any"]) else
+      if !groupOpens m pre then pure (st, ["nogroup"]) else
+      match rm.get (pre ++ kZarrJson) with
+      | some v =>
+        match Cons.GroupDocC.ofText v with
+        | none => pure (st, ["nogroup"])
+        | some g =>
+          let g' := g.setCons (some c)
+          let t := g'.toText
+          let map := match Cons.GroupDocC.ofText t with
+            | some g2 => if Cons.groupOkC g2 then (match g2.cons with
+                | some c2 => hexOf (print (Cons.consJ (Cons.sortKVs (Cons.membersToKVs c2))))
+                | none => "-") else "rej-reopen"
+            | none => "rej-reopen"
+          pure ({ kv := m.put (pre ++ kZarrJson) t }, [s!"ok stored={hexOf (canon t)} map={map}"])
+      | none =>
+        -- a V2 group: `set_consolidated_metadata` is a no-op; `.zgroup` (and `.zattrs`) are stored again
+        match rm.get (pre ++ kZgroup), Cons.zattrsAt rm pre with
+        | some v, some za =>
+          match MetaV2.GroupDocV2.ofText v with
+          | none => pure (st, ["nogroup"])
+          | some d =>
+            let d' : MetaV2.GroupDocV2 := match za with | some a => { d with attrs := a } | none => d
+            let t := print ({ d' with attrs := [] } : MetaV2.GroupDocV2).toJ
+            let m1 := m.put (pre ++ kZgroup) t
+            let m2 := if d'.attrs.isEmpty then m1.erase (pre ++ kZattrs) else m1.put (pre ++ kZattrs) (print (.obj d'.attrs))
+            pure ({ kv := m2 }, [s!"ok stored={hexOf t} map=-"])
+        | _, _ => pure (st, ["nogroup"])
   | "keys" => pure (st, ["keys " ++ showSet (m.keys.map String.ofList)])
   | "children" =>
     let pre := prefixOfPath (← l.get "p")
@@ -214,6 +315,14 @@ def handleOp (st : St) (l : Line) : Option (St × List String) := do
     | some ns =>
       let gs := showSet ((ns.filter (·.2.isGroup)).map (nodeStr ·.1))
       let as := showSet ((ns.filter (fun n => !n.2.isGroup)).map (nodeStr ·.1))
+      -- `child_arrays` creates the arrays: whether the plugins accept a given (non-marker) array document is outside
+      -- the model, so `err` is accepted there when such a child exists
+      let realArray := ns.any (fun n => !n.2.isGroup &&
+        (match m.get (n.1 ++ kZarrJson), m.get (n.1 ++ kZarray) with
+          | some v, _ => v != [2]
+          | none, some v => v != [4]
+          | none, none => false))
+      if realArray && l.outcome == s!"groups={gs} arrays=err" then pure (st, [l.outcome]) else
       pure (st, [s!"groups={gs} arrays={as}"])
     | none => pure (st, ["groups=err arrays=err"])
   | "tree" =>
@@ -242,6 +351,7 @@ def handle (st : St) (l : Line) : Option (St × List String × Option String) :=
   match l.verbs[1]? with
   | some "mut" => (handleMut l).map (fun a => (st, a, none))
   | some "mopt" => (DriverC13Opts.handle l).map (fun a => (st, a, none))   -- Driver/C13Opts.lean
+  | some "build" | some "gbuild" => (DriverC13Build.handle l).map (fun a => (st, a, none))   -- Driver/C13Build.lean
   | some "cfg" => some ({}, ["ok"], none)
   | some "op" => (handleOp st l).map (fun (s, a) => (s, a, none))
   | _ => (handleDoc l).map (fun a => (st, a, none))
